@@ -33,7 +33,9 @@ QUERY_BITS = ['a=1', 'b', 'c=', '=d', 'a=1&a=2', 'q=a b', 'q=a+b', 'q=%20', 'x=%
               'é=ü', 'q=メモ帳', 'k=ヤユ漢', 'p=50\u066aab', 'x="y"', 'x=<>', 'x=`', '&', '&&', '=', 'a=b=c', 'a=%26', 'a=%3d', '?',
               '??', 'a/b', '/../', 'x=#', 'k=日', 'a=%', 'a=%z', '\x7f']
 USERINFOS = ['', '', '', 'user@', 'user:pw@', ':pw@', 'u%40x:p%3Aw@', 'USER@', 'a b@', 'u:@', '%aa:%bb@',
-             'ü:é@', 'a:b:c@', 'u%2F:p%2f@', 'us%0Aer:p%09w@', '%00:%1f@', 'u%0d%0a:x@', '%7f:%20@', 'u%1B:p@']
+             'ü:é@', 'a:b:c@', 'u%2F:p%2f@', 'us%0Aer:p%09w@', '%00:%1f@', 'u%0d%0a:x@', '%7f:%20@', 'u%1B:p@',
+             # an encoded percent sign: decoding it once must not expose a new escape to the next reading
+             'a%2541@', 'u:p%2541@', 'a%25@', '%2525:%25zz@', 'u%252F:x@']
 
 
 def gen_ipv4_spelling(rng, addr=None):
